@@ -523,14 +523,19 @@ def rules(repo=None):
 
 
 EXPLANATION = (
-    "R1: for each of the 17 H5Pset_fill_value call sites the cell (class, real/complex, byte count, signedness) is read off "
-    "the enclosing if/switch conditions, the object whose address is passed is resolved and its initialiser evaluated "
-    "(integer constant expressions, NAN); oracle from the property: float -> NaN in every component, unsigned -> 0, signed N "
-    "bytes -> minimum when orders match and its byte-reversed image when they differ (selected by endian_flip), complex -> both "
-    "fields and the compound type id, object at least as large as the HDF5 type; endian_flip is 1 exactly when host and data "
-    "order differ. R2: all 20 cells exist. R3: needs_chunking truth table over 8 flag combinations; dataset size, start offset "
-    "and index rebasing follow it; fill value installed before any dataset creation. R4: who-may-configure the property list. "
-    "Does NOT decide HDF5's own fill behaviour or slot counting.")
+    "R1: digital_rf_set_fill_value is executed over its CFG by a small concrete machine (no compilation, no running of the "
+    "library: the clang AST is interpreted, HDF5 type queries and the host byte order are answered by an oracle) for every "
+    "element type the extension can produce (20 cells: float 4/8, signed/unsigned 1/2/4/8, real/complex) times the 4 host/data "
+    "byte-order combinations; the H5Pset_fill_value call reached is compared with the property's table: float -> NaN in every "
+    "component, unsigned -> 0, signed N bytes -> minimum when orders match and its byte-reversed image when they differ, "
+    "complex -> both fields and the compound type id, object at least as large as the HDF5 type, set on dataset_prop. R2: all "
+    "20 cells return 0 with a fill value. R3: needs_chunking over the 8 flag combinations (stores evaluated under their "
+    "enclosing conditions / ?: operators); dataset size, start offset and index rebasing follow the flag; fill value installed "
+    "before any dataset creation. R4: who-may-configure the property list (aliases of dataset_prop followed). R5: every path to "
+    "H5Dcreate2 in digital_rf_create_hdf5_file creates the data space anew from this call's dims[0] (must-pass). Does NOT "
+    "decide HDF5's own fill behaviour or slot counting.")
+TECHNIQUE = ("clang JSON AST; concrete interpretation of one function's CFG over a finite domain with an oracle for external "
+             "calls (decision table by evaluation); flag truth tables; CFG must-pass; who-may-call table")
 ASSUMPTIONS = ["HDF5 returns the property list's fill value for unwritten slots of a dataset created with it",
                "two's complement integers; clang 14 AST is faithful"]
 FILES = [C_LIB]
